@@ -42,4 +42,9 @@ func TestCheckNoEvictionLivelock(t *testing.T) {
 		func(t *rapid.T) *sim.World { return sim.GenWorld(t, profile()) }, sim.JudgeLivelock)
 }
 
+// exact ties between sibling queues (equal quota, equal weight, identical workloads), saturated, unequal holdings
+func TestCheckTieFamilies(t *testing.T) {
+	sim.CheckProperty(t, "C15", kit.Budget{Quick: 1500, Thorough: 60000}, sim.GenTieFamily, sim.JudgeLivelock)
+}
+
 func TestReplay(t *testing.T) { sim.ReplayProperty(t, sim.JudgeLivelock, 5) }
